@@ -80,7 +80,8 @@ type c07Knobs struct {
 }
 
 type c07Step struct {
-	Kind    string     `json:"kind"` // "flow"
+	Kind    string     `json:"kind"` // "flow" | "reregister" (the SP changes its key and re-publishes its metadata; NewKey names the key)
+	NewKey  string     `json:"new_sp_key,omitempty"`
 	Relay   string     `json:"relay_state"`
 	Session c07Session `json:"session"`
 }
@@ -289,7 +290,21 @@ func genRoundtrip(g *Rng, tier string) *Plan {
 		crRate = 0.12
 	}
 	n := 1 + g.PickW(6, 3, 1)
+	rereg := g.Bool(0.2) // the SP changes its key and re-registers under the same entity ID between two logins
+	if rereg && n < 2 {
+		n = 2
+	}
 	for i := 0; i < n; i++ {
+		if rereg && i == 1 {
+			nk := Pick(g, "rsa1", "rsa2", "rsa3", "rsa4", "none", "ec0")
+			if nk == k.SPKey {
+				nk = "rsa4"
+				if k.SPKey == "rsa4" {
+					nk = "rsa2"
+				}
+			}
+			p.Steps = append(p.Steps, mustJSON(c07Step{Kind: "reregister", NewKey: nk}))
+		}
 		st := c07Step{Kind: "flow", Relay: Pick(g, "", "rs", "idx-7")} // RelayState encoding is C12's subject: URL-safe values only
 		st.Session = c07GenSession(g, i, tier, crRate)
 		p.Steps = append(p.Steps, mustJSON(st))
@@ -388,6 +403,51 @@ func c07Build(k c07Knobs) (w *c07World, stage string, detail string) {
 	}
 	w.reg[md.EntityID] = md
 	return w, "", ""
+}
+
+// reregister: the SP switches to another key (or none), re-publishes its metadata under the same entity ID,
+// and the IdP's registry entry is replaced by the re-parsed document.
+func (w *c07World) reregister(newKey string) (stage, detail string) {
+	k := w.k
+	k.SPKey = newKey
+	if strings.HasPrefix(newKey, "ec") && k.SPSig != "" && !strings.Contains(k.SPSig, "ecdsa") {
+		k.SPSig = "http://www.w3.org/2001/04/xmldsig-more#ecdsa-sha256"
+	}
+	if strings.HasPrefix(newKey, "rsa") && strings.Contains(k.SPSig, "ecdsa") {
+		k.SPSig = "http://www.w3.org/2001/04/xmldsig-more#rsa-sha256"
+	}
+	if newKey == "none" {
+		k.SPSig = ""
+	}
+	idpMD := w.sp.IDPMetadata
+	if newKey == "none" {
+		w.sp = &saml.ServiceProvider{EntityID: k.EntityID, MetadataURL: mustURL(spBase + "/saml/metadata"), AcsURL: mustURL(spBase + "/saml/acs"),
+			SloURL: mustURL(spBase + "/saml/slo"), IDPMetadata: idpMD}
+	} else {
+		spKP, ok := c07Key(newKey)
+		if !ok {
+			return "plan", "unknown sp key " + newKey
+		}
+		w.sp = newSP(spBase, spKP, k.EntityID, idpMD)
+		w.sp.SignatureMethod = k.SPSig
+	}
+	md := &saml.EntityDescriptor{}
+	var err error
+	if pan := guard(func() {
+		var b []byte
+		b, err = xml.Marshal(w.sp.Metadata())
+		if err == nil {
+			err = xml.Unmarshal(b, md)
+		}
+	}); pan != nil {
+		return "sp-metadata", fmt.Sprintf("panic: %v", pan)
+	}
+	if err != nil {
+		return "sp-metadata", fmt.Sprint(err)
+	}
+	w.reg[md.EntityID] = md
+	w.k = k
+	return "", ""
 }
 
 func (s c07Session) toSession() *saml.Session {
@@ -916,6 +976,22 @@ func execRoundtrip(t *testing.T, p *Plan) *Result {
 
 	for si, raw := range p.Steps {
 		st := decode[c07Step](raw)
+		if st.Kind == "reregister" {
+			if stage, detail := w.reregister(st.NewKey); stage != "" {
+				if stage == "plan" {
+					panic("harness: " + detail)
+				}
+				res.violate(si, "metadata-exchange-failed", "C07/metadata-exchange/"+stage, "each party can be configured from the other's published metadata", "failed at "+stage, detail)
+				return res
+			}
+			k = w.k
+			isEC = strings.HasPrefix(k.SPKey, "ec")
+			wantEncrypted = k.SPKey != "none" && !isEC
+			res.Nontrivial = true
+			res.fire("sp-reregistered")
+			res.logf("step %d the SP re-registered with key %s (same entity ID)", si, st.NewKey)
+			continue
+		}
 		if st.Kind != "flow" {
 			continue
 		}
